@@ -10,7 +10,7 @@ props = {
  'XORPS accepted':['C06'],'MOVZX r16':['C06','C19','C05'],'MOV moffs':['C06','C19','C05','C01'],'LEA added':['C05','C01'],
  '0x67 address-size':['C05','C19','C06'],'converting SupportedRegister::EIP':['C07'],'SHR imm8/CL':['C01','C02','C06','C19'],
  'SHL imm8/CL':['C02','C06','C19'],'CMOVcc with a false':['C01','C06'],'CMOVAE moved':['C01'],'SETB did not':['C01'],
- 'IDIV r/m8|16|32':['C01','C06'],'DIV reported':['C06'],'ADC r/m16|32|64, imm8':['C01','C02'],'ADC r/m8|16|32, r left':['C02'],'POP RSP / POP SP':['C04'],'init_stack_program_start made a RET':['C11'],'built-in brk handler let the guest abort':['C13'],
+ 'IDIV r/m8|16|32':['C01','C06'],'DIV reported':['C06'],'ADC r/m16|32|64, imm8':['C01','C02'],'ADC r/m8|16|32, r left':['C02'],'POP RSP / POP SP':['C04'],'init_stack_program_start made a RET':['C11'],'built-in brk handler let the guest abort':['C13'],'RET ended the run on a machine without a stack':['C04','C06'],
 }
 log = subprocess.check_output(['git','-C','/repo','log','--reverse','--format=%h\t%s']).decode().splitlines()
 d = json.load(open('/verif/known_findings.json'))
